@@ -26,6 +26,7 @@ class Cfg:
         self.pos_words = True
         self.radix = True
         self.big_ints = 0.05
+        self.name_weight = 1
         self.__dict__.update(kw)
 
 
@@ -188,15 +189,16 @@ class Gen:
                 add(2, self.s_format)
             if self.cfg.closures:
                 add(2, self.s_closure)
+            nw = self.cfg.name_weight
             if self.cfg.names and not self.no_let:
-                add(3, self.s_let)
+                add(3 * nw, self.s_let)
             if self.cfg.names and n >= 1:
-                add(2, self.s_scope)
+                add(2 * nw, self.s_scope)
             if self.cfg.blocks:
-                add(1, self.s_block)
+                add(1 * nw, self.s_block)
             add(1, self.s_paren)
         if self.cfg.names and scope.visible():
-            add(4, self.s_read)
+            add(4 * self.cfg.name_weight, self.s_read)
         if self.cfg.scope_errors and self.chance(self.cfg.scope_errors):
             add(30, self.s_scope_error)
         tot = sum(w for w, _ in choices)
@@ -459,7 +461,6 @@ class Gen:
                         nd = ("cat", [nd, lit])
                 finally:
                     self.no_let -= 1
-                nd = self.strip_backslash_strings(nd)
                 cur = out
                 splices.append(nd)
                 cur = cur[:-1]
@@ -694,3 +695,117 @@ def kinds(node, acc=None, path=()):
                 if isinstance(e, tuple):
                     kinds(e, acc, path + (k,))
     return acc
+
+
+def name_stats(node):
+    """Static facts for C03's non-trivial rule: shadowing, up-values per block, reads that
+    cross a sub-expression boundary."""
+    st = {"shadow": 0, "max_upvalues": 0, "cross_reads": 0, "binders": 0, "blocks": 0, "reads": 0}
+
+    def walk(n, chain, ctx):
+        # chain: list of (dict name -> ctx id) scopes; ctx: id of current sub-expression context
+        k = n[0]
+
+        def bind(names, chain):
+            for nm in names:
+                st["binders"] += 1
+                if any(nm in s for s in chain[:-1]) or nm in chain[-1]:
+                    st["shadow"] += 1
+                chain[-1][nm] = ctx
+
+        def lookup(nm):
+            for s in reversed(chain):
+                if nm in s:
+                    return s[nm]
+            return None
+        if k in ("read", "word"):
+            c = lookup(n[1])
+            if c is not None:
+                st["reads"] += 1
+                if c != ctx:
+                    st["cross_reads"] += 1
+            return
+        if k == "str":
+            for p in n[1]:
+                if not isinstance(p, bytes):
+                    walk(p, chain, ctx)
+            return
+        if k == "cat":
+            for c in n[1]:
+                walk(c, chain, ctx)
+            return
+        if k in ("alt", "or"):
+            for c in n[1]:
+                walk(c, chain + [{}], ctx)
+            return
+        if k == "opt":
+            walk(n[1], chain + [{}], ctx)
+            return
+        if k == "cap":
+            ch = chain + [{}]
+            bind(n[1], ch)
+            walk(n[2], ch + [{}], id(n))
+            return
+        if k == "sub":
+            ch = chain + [{}]
+            bind(n[2], ch)
+            walk(n[3], ch, id(n))
+            return
+        if k == "infix":
+            walk(n[1], chain + [{}], id(n))
+            walk(n[3], chain + [{}], id(n) + 1)
+            return
+        if k == "let":
+            walk(n[2], chain + [{}], id(n))
+            bind(n[1], chain)
+            return
+        if k == "scope":
+            if n[1]:
+                ch = chain + [{}]
+                bind(n[1], ch)
+                walk(n[2], ch, ctx)
+            else:
+                walk(n[2], chain, ctx)
+            return
+        if k == "if":
+            walk(n[1], chain + [{}], id(n))
+            walk(n[2], chain + [{}], ctx)
+            walk(n[3], chain + [{}], ctx)
+            return
+        if k in ("star", "plus"):
+            walk(n[1], chain + [{}], id(n))
+            return
+        if k == "block":
+            st["blocks"] += 1
+            before = st["cross_reads"]
+            free = set()
+            # count distinct outer names read inside
+            def free_names(m, bound):
+                kk = m[0]
+                if kk in ("read", "word"):
+                    if m[1] not in bound and any(m[1] in s for s in chain):
+                        free.add(m[1])
+                    return
+                b2 = set(bound)
+                for c in m[1:]:
+                    if isinstance(c, tuple) and c and isinstance(c[0], str):
+                        if kk in ("let",) and c is m[2]:
+                            free_names(c, b2)
+                        else:
+                            free_names(c, b2)
+                    elif isinstance(c, list):
+                        for e in c:
+                            if isinstance(e, tuple) and e and isinstance(e[0], str):
+                                free_names(e, b2)
+                            elif isinstance(e, bytes):
+                                pass
+                if kk == "let":
+                    pass
+            free_names(n[3], set(n[2]))
+            st["max_upvalues"] = max(st["max_upvalues"], len(free))
+            ch = chain + [{}]
+            bind(n[2], ch)
+            walk(n[3], ch, id(n))
+            return
+    walk(node, [{}], 0)
+    return st
